@@ -1,6 +1,7 @@
 package eng
 
 import (
+	"sync/atomic"
 	"bytes"
 	"fmt"
 	"os"
@@ -414,6 +415,48 @@ func (r *Runner) doStep(st Step) bool {
 			return true
 		}
 		return r.checkRes(e.MergerCycle(st.A, st.P), "merge")
+	case "refuse":
+		// The merge operator refuses to merge the operand of st.B during
+		// st.N directed merge-all cycles (see GenParams.RefusePct).
+		if e.Coll == nil || !e.Cfg.MergeOp {
+			return true
+		}
+		if err := e.ExecBatch(st.B); err != nil {
+			if strings.HasPrefix(err.Error(), "watchdog") {
+				return r.watchdog(err.Error())
+			}
+			r.viol("exec", "execute-batch-error", "", err.Error())
+			return false
+		}
+		r.cnt("batches", 1)
+		if r.unprovoked() {
+			return false
+		}
+		f0 := atomic.LoadInt64(&MergeFailures)
+		atomic.StoreInt32(&MergeFailArmed, 1)
+		ok := true
+		for i := 0; i < st.N && ok; i++ {
+			ok = r.checkRes(e.MergerCycle("mergeAll", ""), "refused-merge")
+		}
+		atomic.StoreInt32(&MergeFailArmed, 0)
+		if !ok {
+			return false
+		}
+		refused := atomic.LoadInt64(&MergeFailures) - f0
+		r.cnt("refuse.steps", 1)
+		r.cnt("refuse.fullmerge_refused", int(refused))
+		if n := e.BgErrCount(); n > r.baseErrs {
+			// errors reported while the operator refused are provoked - if
+			// they are the operator's refusal and it did refuse
+			for _, t := range e.BgErrsSince(r.baseErrs) {
+				if refused == 0 || !strings.Contains(t, "merge-operator-full-merge-failed") {
+					r.viol("background", "unprovoked-background-error", errClass(t), t)
+					return false
+				}
+			}
+			r.cnt("refuse.errors_surfaced", n-r.baseErrs)
+			r.baseErrs = n
+		}
 	case "persist":
 		if e.Coll == nil {
 			return true
